@@ -708,6 +708,12 @@ def generate_record(seed, tier, opts):
                     else:
                         a["num_sums"] = [10, 50]
                     steps.append({"op": "call", "entry": entry, "a": a, "stream": gen_stream(rng, pool)})
+    elif directed == "concurrent_callers":
+        for _ in range(10):
+            steps.append(gen_concurrent(rng, pool))
+            if rng.random() < 0.5:
+                entry, a = gen_call(rng, pool, small=True)
+                steps.append({"op": "call", "entry": entry, "a": a, "stream": gen_stream(rng, pool)})
     elif directed == "bulk_distribution":
         for v in range(len(pool["vectors"])):
             steps.append({"op": "call", "entry": "gen_data", "a": {"v": v, "n": 20000}, "stream": {"k": "gen", "i": 0}})
@@ -728,6 +734,7 @@ def generate_record(seed, tier, opts):
         p_malformed = rng.choice([0.0, 0.05])
         p_replace = 0.0 if fault_free else rng.choice([0.0, 0.05, 0.1])
         p_reentrant = 0.0 if fault_free else rng.choice([0.0, 0.05, 0.12])
+        p_concurrent = 0.0 if fault_free else rng.choice([0.0, 0.0, 0.04, 0.1])
         # swarm: a random subset of entry points gets most of the weight
         fav = set(rng.sample([e for e, _ in ENTRY_WEIGHTS], rng.randint(3, len(ENTRY_WEIGHTS))))
         entries = [(e, w * (3 if e in fav else 0.3)) for e, w in ENTRY_WEIGHTS]
@@ -766,7 +773,9 @@ def generate_record(seed, tier, opts):
                 steps.append({"op": "interleaved", "outer": {"entry": e1, "a": a1, "seed": rng.randrange(40)}, "inner": {"entry": e2, "a": a2, "seed": rng.randrange(40)},
                               "at": [rng.choice(["_random_number_to_data", "_random_number_to_data", "to_stream", "validate_prob_dist", "generate_empi_dist_sequence_from_prob_dist", "calc_prob_dist",
                                                  "generate_data_from_prob_dist", "curried_random_number_to_data"]), rng.choice([1, 2, 3, 5])]})
-            elif r < p_fault + p_boundary + p_twin + p_malformed + p_reentrant + p_replace:
+            elif r < p_fault + p_boundary + p_twin + p_malformed + p_reentrant + p_concurrent:
+                steps.append(gen_concurrent(rng, pool, entries))
+            elif r < p_fault + p_boundary + p_twin + p_malformed + p_reentrant + p_concurrent + p_replace:
                 what = rng.choice(["state", "state", "povm", "gate"])
                 name = rng.choice({"state": STATE_NAMES, "povm": POVM_NAMES, "gate": GATE_NAMES}[what])
                 steps.append({"op": "replace_in_experiment", "what": what, "i": rng.randrange(4), "name": name})
@@ -793,6 +802,34 @@ def generate_record(seed, tier, opts):
                 steps.append({"op": "call", "entry": entry, "a": a, "stream": stream})
     return {"engine": "rngsim", "seed": seed, "tier": tier, "opts": {k: v for k, v in opts.items() if k != "want_record"},
             "pool": to_jsonable(pool), "steps": steps}
+
+
+def gen_concurrent(rng, pool, entries=None):
+    """fault kind concurrent_callers: two or three seeded requests made by caller threads at the same time on the live
+    world's shared objects (the flow's data-generation tasks do exactly this with one tomography object)."""
+    n = rng.choice([2, 2, 3])
+    reqs = []
+    if rng.random() < 0.6:
+        # the same tomography object, different true objects
+        t = rng.choice(["qst", "povmt", "qpt", "qmpt"])
+        names = list(TRUE_NAMES[t][1])
+        for i in range(n):
+            entry = rng.choice(["tomo_empi_seq", "tomo_empi_seq", "tomo_empi_dists", "tomo_empi_dist"])
+            a = {"t": t, "obj": names[(rng.randrange(len(names)) + i) % len(names)] if i else rng.choice(names), "kw": rng.random() < 0.3}
+            if i and a["obj"] == reqs[0]["a"]["obj"] and len(names) > 1:
+                a["obj"] = [x for x in names if x != reqs[0]["a"]["obj"]][0]
+            if entry == "tomo_empi_dist":
+                a["sched"], a["num_sum"] = rng.randrange(_n_tomo_schedules(pool, t)), rng.choice([10, 60])
+            elif entry == "tomo_empi_dists":
+                a["num_sum"] = rng.choice([10, 60])
+            else:
+                a["num_sums"] = gen_num_sums(rng, 60)
+            reqs.append({"entry": entry, "a": a, "seed": rng.randrange(40)})
+    else:
+        for _ in range(n):
+            e, a = gen_call(rng, pool, entries, small=True)
+            reqs.append({"entry": e, "a": a, "seed": rng.randrange(40)})
+    return {"op": "concurrent", "reqs": reqs, "policy": {"kind": "bernoulli", "rate": rng.choice([0.01, 0.03, 0.1, 0.3])}, "salt": rng.randrange(1 << 30)}
 
 
 def gen_malformed(rng, pool):
@@ -964,6 +1001,57 @@ class Run:
         if not outputs_equal(box["inner_out"], ref_inner):
             raise Violation("R5_reentrant", f"{inner['entry']} (seed {inner['seed']}) returned something else than alone when it ran inside {outer['entry']} (at the {occ}-th entry of {target})",
                             {"step": idx, "outer": outer, "inner": inner, "at": st["at"]}, dict(sig, which="inner"))
+
+    def do_concurrent(self, idx, st):
+        """fault kind concurrent_callers: the requests run as baton-passing threads (pre-empted at quara function entries
+        by a seeded or recorded switch list) on the live world's shared objects; each must return what it returns alone."""
+        import os
+
+        import quara
+        from poolsim.simpool import Decider, Sim, SimAbort, SimClock
+
+        reqs = st["reqs"]
+        np_s, py_s = np.random.get_state(), pyrandom.getstate()
+        try:
+            refs = [_canon(call_entry(self.fresh_world(), r["entry"], r["a"], r["seed"])) for r in reqs]
+        except Exception:
+            return
+        finally:
+            np.random.set_state(np_s)
+            pyrandom.setstate(py_s)
+        if st.get("sched") is not None:
+            dec = Decider(record={"proc": [], "threads": [dict(e) for e in st["sched"]]})
+        else:
+            dec = Decider(rng=pyrandom.Random(st["salt"]), policy=dict(st["policy"]))
+        sim = Sim(dec, SimClock(), os.path.dirname(os.path.abspath(quara.__file__)) + os.sep, max_yields=3_000_000)
+        world = self.world
+        tasks = [((lambda r=r: _canon(call_entry(world, r["entry"], r["a"], r["seed"]))), (), {}) for r in reqs]
+        exc = None
+        try:
+            outs = sim.parallel(len(reqs), tasks, force_threads=True)
+        except SimAbort:
+            raise
+        except Exception as e:
+            exc, outs = e, None
+        finally:
+            np.random.set_state(np_s)
+            pyrandom.setstate(py_s)
+        if st.get("sched") is None:
+            st["sched"] = [{k: v for k, v in e.items() if not k.startswith("_")} for e in dec.rec["threads"]]
+        n_sw = sim.faults.get("thread_preempt", 0)
+        self.log.append(["concurrent", digest(outs) if outs is not None else type(exc).__name__, n_sw])
+        self.bump("oracle_checks", "R6_concurrent_callers")
+        if n_sw:
+            self.bump("faults", "concurrent_callers_preempted", n_sw)
+            self.pending_fault = True
+        sig = {"op": "concurrent", "entries": sorted(set(r["entry"] for r in reqs))}
+        if exc is not None:
+            raise Violation("R6_concurrent_callers", f"a seeded request raised {type(exc).__name__} when made concurrently with others ({[r['entry'] for r in reqs]}), none of them raises alone: {str(exc)[:200]}",
+                            {"step": idx, "reqs": reqs, "sched": st["sched"]}, dict(sig, how="exception"))
+        for r, o, ref in zip(reqs, outs, refs):
+            if not outputs_equal(o, ref):
+                raise Violation("R6_concurrent_callers", f"{r['entry']} (seed {r['seed']}, {r['a']}) returned something else than alone when {len(reqs) - 1} other seeded request(s) ran concurrently ({n_sw} thread switches)",
+                                {"step": idx, "reqs": reqs, "sched": st["sched"]}, sig)
 
     # --- one generation call with all oracles -------------------------------------------------
     def do_call(self, idx, entry, a, spec, crafted=None):
@@ -1241,6 +1329,9 @@ class Run:
         elif op == "interleaved":
             self.kinds.append(["interleaved", st["outer"]["entry"], st["inner"]["entry"], st["at"][0]])
             self.do_interleaved(idx, st)
+        elif op == "concurrent":
+            self.kinds.append(["concurrent"] + [r["entry"] for r in st["reqs"]])
+            self.do_concurrent(idx, st)
         elif op == "malformed":
             self.kinds.append(["malformed", st["kind"]])
             self.malformed(idx, st)
